@@ -64,7 +64,7 @@ fn build(case: &Case) -> Option<Model<'static>> {
 
 fn show(v: Result<V, crate::refeval::Unsupported>) -> String {
     match v {
-        Ok(V::Num(x)) => format!("n:{:.14e}", if x == 0.0 { 0.0 } else { x }),
+        Ok(V::Num(x)) => format!("n:{:.11e}", if x == 0.0 { 0.0 } else { x }),
         Ok(v) => format!("{:?}", v),
         Err(_) => "unevaluated".into(),
     }
